@@ -253,7 +253,7 @@ func (tpl *Template) ExecuteBlocks(context Context, blocks []string) (map[string
 			if _, ok := result[blockName]; ok {
 				continue
 			}
-			if blockWrapper, ok := t.blocks[blockName]; ok {
+			if _, ok := t.blocks[blockName]; ok {
 				// assign the buffer if we haven't done so
 				if buffer == nil {
 					buffer = bytes.NewBuffer(make([]byte, 0, int(float64(t.size)*1.3)))
@@ -265,7 +265,8 @@ func (tpl *Template) ExecuteBlocks(context Context, blocks []string) (map[string
 						return nil, err
 					}
 				}
-				bErr := blockWrapper.Execute(ctx, buffer)
+				// (executed as a block, not as a bare body, so that block.Super reaches the parent's definition)
+				bErr := (&tagBlockNode{name: blockName}).Execute(ctx, buffer)
 				if bErr != nil {
 					return nil, bErr
 				}
